@@ -20,6 +20,17 @@ def intruder(rng, ap):
         x["deps"] = [{"to": list(rng.choice(leaves)), "style": "abs"}]
     if rng.random() < 0.2 and not ap.get("alap"):
         x["start"] = ap["start"] + rng.randint(0, 5) * 86400 + rng.choice([9, 11, 14]) * 3600
+    if rng.random() < 0.25 and leaves and not ap.get("alap") and not (ap["resources"] and "kids" in ap["resources"][0]):
+        # a resource of its own that is away when the project begins (leave or a late shift); the intruder depends on
+        # another task: whatever the scheduler estimates for the intruder must not move its predecessor
+        day0 = ap["start"] - ap["start"] % 86400
+        r = {"id": "rzz", "eff": "1.0", "leaves": [(day0, day0 + rng.randint(1, 3) * 86400, "annual")]}
+        if rng.random() < 0.4:
+            r = {"id": "rzz", "eff": "1.0", "leaves": [], "hours": [(d, [((15, 0), (19, 0))]) for d in range(1, 5)]}
+        ap["resources"].append(r)
+        x["alloc"] = ["rzz"]
+        x["deps"] = [{"to": list(rng.choice(leaves)), "style": "abs"}]
+        x.pop("start", None)
     return x
 
 
@@ -91,7 +102,7 @@ def run(ctx):
         violations.append({"no_input": True, "replay": common.write_replay(ctx, {"property": "C09", "kind": "proof obligation no longer checks; no failing input found", "failing_obligations": failing})})
     cov = {"obligations": nob, "discharged": ndis, "checker_cmd": "tools/coqbuild.sh (coqc 8.16.1 full .vo build)", "trusted_base": common.TRUSTED, "files": files,
            "traces_validated_against_impl": stats["compared"], "input_distribution": dict(stats),
-           "rule": "random core / sub-slot / dependency / limit / calendar projects, each scheduled with and without a random intruder (strictly lowest priority - mostly one below the lowest priority that the text gives any other task, directly or by inheritance through up to four levels of containers -, any effort, resource or team, optional pinned start, optional dependency ON other tasks, inserted at a random declaration position); projects with alternatives and two or three scenarios are compared in every scenario; pairs whose horizon differs are skipped (property hypothesis)",
+           "rule": "random core / sub-slot / dependency / limit / calendar projects, each scheduled with and without a random intruder (strictly lowest priority - mostly one below the lowest priority that the text gives any other task, directly or by inheritance through up to four levels of containers -, any effort, resource or team, optional pinned start, optional dependency ON other tasks, sometimes on a resource of its own that is away when the project begins, inserted at a random declaration position); projects with alternatives and two or three scenarios are compared in every scenario; pairs whose horizon differs are skipped (property hypothesis)",
            "samples": [{"project_with_intruder": projects.render(withx[0])[:1200]}]}
     common.finish(ctx, "proof", cov, violations,
                   ["the theorem is stated for the whole-slot model with the intruder declared last; other declaration positions and sub-slot projects are covered by the two-run comparison on the implementation"])
